@@ -3,6 +3,7 @@ CONSTANTS
   N = 2
   Subs = {1, 2}
   TaskOf <- T_2x11
+  Follow <- F_none
   Lazy = TRUE
   Detached = TRUE
   WaitAll = FALSE
